@@ -192,7 +192,9 @@ class Ctx:
             return None
         if not lines:
             return []
-        data = "\n".join(lines) + "\n"
+        # instrumentation: ask the driver which phases of the protocol model the run has reached (evidence only)
+        want_cov = any(l.startswith("rfb-recv") for l in lines)
+        data = "\n".join(lines) + "\n" + ("rfb-cov\n" if want_cov else "")
         if os.environ.get("VERIF_DUMP"):
             open(os.environ["VERIF_DUMP"], "w").write(data)
         def _limit():
@@ -205,6 +207,9 @@ class Ctx:
         out = p.stdout.split("\n")
         if out and out[-1] == "":
             out.pop()
+        if want_cov and out and out[-1].startswith("ok"):
+            seen = set(self.stats.get("model_phases_reached", [])) | set(out.pop()[3:].split())
+            self.stats["model_phases_reached"] = sorted(seen)
         if len(out) != len(lines):
             raise Infra("vncdrv produced %d lines for %d ops; first: %r" % (len(out), len(lines), out[:2]))
         return out
